@@ -1274,6 +1274,10 @@ func (d *dealer) syncRemoveSession(sess *wamp.Session) []*wamp.Publish {
 		if errArgs == nil {
 			errArgs = wamp.List{"callee gone"}
 		}
+		// If the caller already canceled with mode "kill" it is still waiting
+		// for the callee's answer, which will never come now. Clear the flag
+		// so that the caller gets its error below.
+		invk.canceled = false
 		// Use CancelModeSkip so as not to send an INTERRUPT to a callee that
 		// is no longer there.
 		d.syncCancel(caller, &wamp.Cancel{Request: invk.callID.request},
